@@ -45,7 +45,8 @@ EXPECTED_PROBES = ['fault_is_SerializerError', 'fault_is_SerializerInterrupt', '
                    'crash_after_rename', 'crash_torn_write', 'success']
 
 PROF = gen.profile(max_nodes=5, max_depth=2, w_group=2, w_subtest=2, w_branch=0, w_ckpt_fail=0, w_ckpt_diag=0,
-                   p_attach=500, p_logs=500, p_meas=500, p_fault_beh=200, p_diag=200)
+                   p_attach=500, p_logs=500, p_meas=500, p_fault_beh=200, p_diag=200, p_test_start=400,
+                   p_dut_percent=300)
 
 _m = {}
 
